@@ -1357,9 +1357,26 @@ MONITORS = {
 }
 
 
+def mon_contracts(ix: Index, props):
+    """Violations and evaluation counts reported by the in-situ icontract postconditions (child side)."""
+    out = []
+    ev = {}
+    for e in ix.trace:
+        if e["kind"] == "contract":
+            prop = e["name"].split("/")[0]
+            if props is None or prop in props:
+                out.append(V(prop, e["name"], e.get("detail", ""), e["i"]))
+        elif e["kind"] == "inv_end_summary" and e.get("contract_evals"):
+            for k, v in e["contract_evals"].items():
+                ev[k] = ev.get(k, 0) + v
+    for k, v in ev.items():
+        ix.r.setdefault("stats", {})["insitu_contract_evaluations_" + k] = v
+    return out
+
+
 def run_monitors(r: dict, props=None) -> list[dict]:
     ix = Index(r)
-    out = []
+    out = mon_contracts(ix, props)
     for p, fn in MONITORS.items():
         if props is None or p in props:
             out.extend(fn(ix))
